@@ -81,9 +81,17 @@ Definition rd_len (W : Z) (buf : list Z) : Z :=
 Definition rd_padded_len (W : Z) (buf : list Z) : Z :=
   let l := rd_len W buf in wrap W (l + pad_for_len8 l).
 
-(** ttlv/io.go [computeNeededBytes] *)
+(** [math.MaxInt] *)
+Definition max_int (W : Z) : Z := 2 ^ (W - 1) - 1.
+
+(** ttlv/io.go [computeNeededBytes]:
+    if len(buf) < 8 { return 8 }
+    if l := binary.BigEndian.Uint32(buf[4:8]); uint64(l) > math.MaxInt-16 { return -1 }
+    dec := ttlvReader{buf: buf}; return 8 + dec.paddedLen() *)
 Definition needed_bytes (W : Z) (buf : list Z) : Z :=
-  if len buf <? 8 then 8 else wrap W (8 + rd_padded_len W buf).
+  if len buf <? 8 then 8
+  else if unbe (take 4 (drop 4 buf)) >? max_int W - 16 then -1
+  else wrap W (8 + rd_padded_len W buf).
 
 (* ------------------------------------------------------------------ Recv *)
 
@@ -91,7 +99,7 @@ Definition needed_bytes (W : Z) (buf : list Z) : Z :=
 Inductive rout (M : Type) :=
 | RMsg (r : res M)        (* return UnmarshalTTLV(buf[:need], msg) *)
 | RErr (e : Z)            (* return err: the transport's error, unchanged *)
-| RTooBig                 (* return Errorf("Message is too big. ...") *)
+| RTooBig                 (* return Errorf("Message is too big. ..."): over the limit, or not representable by an int *)
 | RZero (first : bool)    (* a (0, nil) read: io.ErrUnexpectedEOF when read == 0, io.EOF otherwise *)
 | RPanic                  (* slice bounds out of range *)
 | RFuel.                  (* model ran out of fuel (excluded by recv_terminates) *)
@@ -163,8 +171,8 @@ Section Recv.
       let read := read + n in
       (* need = computeNeededBytes(buf[:read]) *)
       let need := needed_bytes W (take read buf) in
-      (* if s.max > 0 && need > s.max { return Errorf(...) } *)
-      if (0 <? max) && (need >? max) then Done (mkRes RTooBig t' cap trace) else
+      (* if need < 0 { return Errorf(...) }; if s.max > 0 && need > s.max { return Errorf(...) } *)
+      if (need <? 0) || ((0 <? max) && (need >? max)) then Done (mkRes RTooBig t' cap trace) else
       (* if read >= need { return UnmarshalTTLV(buf[:need], msg) } *)
       if need <=? read then
         if (need <? 0) || (need >? cap) then Done (mkRes RPanic t' cap trace)
